@@ -210,7 +210,13 @@ def gen(rng, idx, tier):
         nm = side + suffix
         if any(a["name"] == nm for a in by_name[n]["anchors"]):
             return
-        by_name[n]["anchors"].append({"name": nm, "x": _coord(rng), "y": _coord(rng, -300, 600)})
+        x, y = _coord(rng), _coord(rng, -300, 600)
+        q = rng.random()
+        if q < 0.06:
+            x, y = 0, 0                  # exactly at the origin (a valid position)
+        elif q < 0.10:
+            x, y = rng.choice([(0, y), (x, 0), (0.3, -0.4)])
+        by_name[n]["anchors"].append({"name": nm, "x": x, "y": y})
 
     if mode != "none" and cands:
         if mode == "one_sided_font":
